@@ -1451,7 +1451,21 @@ impl Machine {
                 IndexingLine::Indexing(IndexingInstruction::SwitchOnConstant(hm)) => {
                     // let lit = self.machine_st.constant_to_literal(addr);
 
-                    let offset = match hm.get(&addr) {
+                    // integers (and integral rationals) that fit a fixnum are always
+                    // indexed under their fixnum key (see constant_key_alternatives);
+                    // a run-time bignum cell holding such a value, e.g. the result of
+                    // 2^60 - 2^60 + 2, has to be looked up under that key as well.
+                    let key = if addr.get_tag() == HeapCellValueTag::Cons {
+                        Literal::try_from((addr, &self.machine_st.arena.f64_tbl))
+                            .ok()
+                            .and_then(crate::indexing::constant_key_alternatives)
+                            .map(HeapCellValue::from)
+                            .unwrap_or(addr)
+                    } else {
+                        addr
+                    };
+
+                    let offset = match hm.get(&key) {
                         Some(offset) => *offset,
                         _ => IndexingCodePtr::Fail,
                     };
